@@ -592,6 +592,9 @@ func (vt *Model) Update(msg vaxis.Event)
         (loglen("pty") == old(loglen("pty")) + 1
          && HostKey(unbox(logat("pty", old(loglen("pty"))), "string")) == unbox(msg, "vaxis.Key").Keycode
          && HostMods(unbox(logat("pty", old(loglen("pty"))), "string")) == XM(unbox(msg, "vaxis.Key")))
+  -- the child's cursor-key mode (DECCKM), not its keypad mode, selects SS3 or CSI for an unmodified cursor key
+  ensures C13_ckm: (typeis(msg, "vaxis.Key") && IsCursorKey(unbox(msg, "vaxis.Key").Keycode) && XM(unbox(msg, "vaxis.Key")) == 0) ==>
+        (loglen("pty") == old(loglen("pty")) + 1 && seqkind(unbox(logat("pty", old(loglen("pty"))), "string")) == (vt.mode.decckm ? 2 : 1))
   -- nothing (an empty string) is written for a mouse event while the child has no mouse mode enabled
   ensures C13_mouse_off: (typeis(msg, "vaxis.Mouse") && MouseOff(vt) && !(vt.mode.altScroll && vt.mode.smcup)) ==>
         (loglen("pty") == old(loglen("pty")) + 1 && len(unbox(logat("pty", old(loglen("pty"))), "string")) == 0)
